@@ -22,6 +22,7 @@ func init() {
 			{ID: "C07.R6", Floor: 1, Doc: "exec: write-error exits release (not started) or close the connection", Run: c07r6},
 			{ID: "C07.R7", Floor: 2, Doc: "sticky failure: each socket write is guarded by the writer's recorded-failure state, which is set on a write error", Run: c07r7},
 			{ID: "C07.R8", Floor: 1, Doc: "net.Buffers.WriteTo consumes its receiver: it runs on a private copy, the per-request accounting reads the untouched original", Run: c07r8},
+			{ID: "C07.R9", Floor: 1, Doc: "frames handed to the writer are complete: the header length equals the bytes that follow it (=C18.R7)", Run: finishLength},
 		},
 	})
 }
@@ -782,7 +783,7 @@ func c07r5(p *Program, r *Report) {
 				}
 				return false
 			}) != nil
-			if !inRange {
+			if !inRange && !singleWriterSend(p, fi, s) {
 				r.Bad(s, fi.Name+" result sent outside a per-writer loop", "a result is sent outside a loop over the pending writers")
 			}
 			return true
@@ -796,6 +797,9 @@ func c07r5(p *Program, r *Report) {
 		ef := g.Events(func(st Step) []string {
 			if st.Kind == StNode {
 				if s, ok := st.Node.(*ast.SendStmt); ok && m(s) {
+					if singleWriterSend(p, fl, s) {
+						return []string{"delivered", "loopDone"}
+					}
 					return []string{"delivered"}
 				}
 			}
@@ -1159,6 +1163,59 @@ func c07r7(p *Program, r *Report) {
 				return true
 			})
 		}
+		// ... and on every path from this write to an exit on which the write may have failed
+		if guard != "" && assigned {
+			errVar := ""
+			if fn := calleeOf(info, s.call); fn != nil {
+				sig := fn.Type().(*types.Signature)
+				for i := 0; i < sig.Results().Len(); i++ {
+					if isErrorType(sig.Results().At(i).Type()) {
+						errVar = resultVarOf(p, s.call, i)
+					}
+				}
+			}
+			callStmt := p.stmtOf(s.call, fi)
+			sol := Solve(g, Lattice[bool]{
+				Join: func(a, b bool) bool { return a || b },
+				Eq:   func(a, b bool) bool { return a == b },
+				Step: func(pending bool, st Step) bool {
+					switch st.Kind {
+					case StNode:
+						if st.Node == callStmt {
+							return true
+						}
+						for _, l := range assignedLHS(st.Node) {
+							if exprStr(l) == guard {
+								return false
+							}
+						}
+					case StCond:
+						if errVar != "" && errVar != "_" {
+							if b, ok := ast.Unparen(st.Node.(ast.Expr)).(*ast.BinaryExpr); ok && (b.Op == token.NEQ || b.Op == token.EQL) {
+								x := ""
+								if isNil(info, b.Y) {
+									x = exprStr(b.X)
+								} else if isNil(info, b.X) {
+									x = exprStr(b.Y)
+								}
+								if x == errVar && st.Val == (b.Op == token.EQL) {
+									return false // the write succeeded on this edge
+								}
+							}
+						}
+					}
+					return pending
+				},
+			})
+			for _, e := range g.Exits() {
+				if e.Kind == ExitPanic {
+					continue
+				}
+				if pend, ok := sol.AtExit(e); ok && pend {
+					assigned = false
+				}
+			}
+		}
 		_ = info
 		r.Check(guard != "" && assigned, s.call, fi.Name+" socket write guarded by sticky failure state",
 			"write refused once "+guard+" records an earlier failure",
@@ -1223,4 +1280,28 @@ func c07r8(p *Program, r *Report) {
 	if n == 0 {
 		r.Unresolved("no net.Buffers.WriteTo call found")
 	}
+}
+
+// singleWriterSend: the result is sent to element 0 of the pending-writer list at a point where the batch is known
+// to hold exactly one entry (a fast path for a lone frame): that one send serves every pending writer.
+func singleWriterSend(p *Program, fi *FuncInfo, s *ast.SendStmt) bool {
+	info := fi.Pkg.TypesInfo
+	ix, ok := ast.Unparen(s.Chan).(*ast.IndexExpr)
+	if !ok {
+		return false
+	}
+	if k, isK := constInt(info, ix.Index); !isK || k != 0 {
+		return false
+	}
+	f, ok := p.GraphOf(fi).GuardFacts().Before(s)
+	if !ok {
+		return false
+	}
+	for atom, v := range f.m {
+		a := strings.ReplaceAll(atom, " ", "")
+		if v && (strings.HasPrefix(a, "1==len(") || strings.HasPrefix(a, "len(") && strings.HasSuffix(a, ")==1")) {
+			return true
+		}
+	}
+	return false
 }
